@@ -27,6 +27,18 @@ Theorem c_epochs_chain wb ls1 ls2 id x x' :
   r_ver x <= r_ver x' /\ r_confver x <= r_confver x' /\ r_term x <= r_term x'.
 Proof. apply epochs_monotone_chain_pf. apply HInv_exec. Qed.
 
+Theorem c_ack_term wb ls t r :
+  (forall h', begin (reach wb ls) t r = (h', HOk) ->
+     exists x, get_region (h_cache h') (r_id r) = Some x /\ r_term r <= r_term x) /\
+  (forall fl h' res, th_get (h_threads (reach wb ls)) t = Some (PLock r fl) -> 0 < r_term r ->
+     step (reach wb ls) t = (h', res) -> res <> HErr ->
+     exists x, get_region (h_cache h') (r_id r) = Some x /\ r_term r <= r_term x).
+Proof.
+  split.
+  - intros h'. apply acknowledged_term_begin_pf.
+  - intros fl h' res. apply acknowledged_term_step_pf. apply HInv_exec.
+Qed.
+
 Theorem c_precheck_is_stale wb ls r : valid_range r = true ->
   snd (precheck (h_cache (reach wb ls)) r) = stale_spec (cached (h_cache (reach wb ls))) r.
 Proof. intros V. apply precheck_is_stale_pf; [apply reach_inv|exact V]. Qed.
